@@ -186,6 +186,73 @@ theorem evm_call6_short {op : Nat} (hop : (f.code[f.pc]?).getD 0 = op) (h : op =
      | [_, _, _, _], _ => rfl
      | [_, _, _, _, _], _ => rfl)
 
+/-! ### LOG0..LOG4, EXTCODESIZE, EXTCODECOPY -/
+
+def IsLog (op : Nat) : Prop := op = 0xa0 ∨ op = 0xa1 ∨ op = 0xa2 ∨ op = 0xa3 ∨ op = 0xa4
+
+theorem evm_log_short {op : Nat} (hop : (f.code[f.pc]?).getD 0 = op) (h : IsLog op)
+    (hl : ¬ f.stack.length > 1024) (hst : f.stack.length < op - 0xa0 + 2) :
+    Evm.step p w f = .halt w .stackUnderflow := by
+  rcases h with rfl | rfl | rfl | rfl | rfl <;>
+    (unfold Evm.step; simp only [hop, hl, ↓reduceIte]
+     match h : f.stack, hst with
+     | [], _ => rfl
+     | [_], _ => rfl
+     | _ :: _ :: s, hst =>
+       simp only [List.length_cons, Nat.reduceSub] at hst
+       first
+         | (exfalso; omega)
+         | (have hs : s.length < 1 := by omega
+            simp [Evm.isPush, hs])
+         | (have hs : s.length < 2 := by omega
+            simp [Evm.isPush, hs])
+         | (have hs : s.length < 3 := by omega
+            simp [Evm.isPush, hs])
+         | (have hs : s.length < 4 := by omega
+            simp [Evm.isPush, hs]))
+
+theorem evm_log_static {op : Nat} (hop : (f.code[f.pc]?).getD 0 = op) (h : IsLog op)
+    (hl : ¬ f.stack.length > 1024) {off len : Nat} {s : List Nat} (hst : f.stack = off :: len :: s)
+    (hn : ¬ s.length < op - 0xa0) (hs : f.isStatic = true) :
+    Evm.step p w f = .halt w .writeInStatic := by
+  rcases h with rfl | rfl | rfl | rfl | rfl <;>
+    (unfold Evm.step; simp only [hop, hl, ↓reduceIte]; simp only [hst]
+     simp only [Nat.reduceSub] at hn
+     simp [Evm.isPush, hn, hs])
+
+theorem evm_log_ok {op : Nat} (hop : (f.code[f.pc]?).getD 0 = op) (h : IsLog op)
+    (hl : ¬ f.stack.length > 1024) {off len : Nat} {s : List Nat} (hst : f.stack = off :: len :: s)
+    (hn : ¬ s.length < op - 0xa0) (hs : f.isStatic = false) (hok : len = 0 ∨ off + len ≤ p.memLimit) :
+    Evm.step p w f =
+      .next { w with logs := w.logs ++ [(f.this, s.take (op - 0xa0), Evm.readBytes f.mem off len)] }
+        { f.touch off len with stack := s.drop (op - 0xa0), pc := f.pc + 1 } := by
+  have hm := memOk_of hok
+  rcases h with rfl | rfl | rfl | rfl | rfl <;>
+    (unfold Evm.step; simp only [hop, hl, ↓reduceIte]; simp only [hst]
+     simp only [Nat.reduceSub] at hn
+     simp [Evm.isPush, hn, hs, hm, touch_this, touch_mem, touch_pc])
+
+theorem evm_extcodesize (hop : (f.code[f.pc]?).getD 0 = 0x3b) (hl : ¬ f.stack.length > 1024) :
+    Evm.step p w f = Evm.op1 w f fun a => ((w.codeOf (Evm.addrMask a)).getD []).length := by
+  unfold Evm.step; simp only [hop, hl, ↓reduceIte]
+
+theorem evm_extcodecopy (hop : (f.code[f.pc]?).getD 0 = 0x3c) (hl : ¬ f.stack.length > 1024) {a dst src len s}
+    (hst : f.stack = a :: dst :: src :: len :: s) (hok : len = 0 ∨ dst + len ≤ p.memLimit) :
+    ∃ f', Evm.step p w f = .next w f' ∧ SameCtx f' f ∧ f'.pc = f.pc + 1 ∧ f'.stack = s ∧
+      f'.mem = Evm.writeBytes f.mem dst (Evm.readBytes ((w.codeOf (Evm.addrMask a)).getD []) src len) := by
+  have : Evm.step p w f = Evm.copyToMem p w f s ((w.codeOf (Evm.addrMask a)).getD []) dst src len := by
+    unfold Evm.step; simp only [hop, hl, ↓reduceIte]; simp only [hst]
+  rw [this]; exact copyToMem_ok hok
+
+theorem evm_extcodecopy_short (hop : (f.code[f.pc]?).getD 0 = 0x3c) (hl : ¬ f.stack.length > 1024)
+    (hst : f.stack.length < 4) : Evm.step p w f = .halt w .stackUnderflow := by
+  unfold Evm.step; simp only [hop, hl, ↓reduceIte]
+  match h : f.stack, hst with
+  | [], _ => rfl
+  | [_], _ => rfl
+  | [_, _], _ => rfl
+  | [_, _, _], _ => rfl
+
 /-- a frame without code halts at once: success, no data -/
 theorem halts_empty_code (hc : f.code = []) (hs : f.stack.length ≤ 1024) {r : Evm.World × Evm.Halt} :
     Halts p w f r ↔ r = (w, .success []) := by
